@@ -239,6 +239,29 @@ def run(ctx):
             if got != want:
                 ctx.violation("oracle", f"`{src}` with a={proto.show(pool[i])}, b={proto.show(pool[j])} gives {got}, expected {want}",
                               {"op": "program", "src": src, "a": proto.to_sx(pool[i]), "b": proto.to_sx(pool[j])})
+    # ---- equal sets / maps are interchangeable as set elements and map keys WHATEVER order they were built in — also collections whose
+    # elements have no consistent cross-kind order (a date among ints: enumeration order then depends on the construction order, equality and
+    # hashing must not)
+    mixes = [["date('20170405')", "3", "11"], ["date('20200229')", "100", "3", "20"], ["'b'", "2", "date('20170405')", "10"], ["1", "2", "3"], ["'x'", "'y'", "10", "9"]]
+    for elems in mixes:
+        perms = list(itertools.permutations(elems))[:6]
+        for p1 in perms:
+            for p2 in perms:
+                a_, b_ = "<<" + ", ".join(p1) + ">>", "<<" + ", ".join(p2) + ">>"
+                ma, mb = "<<<" + ", ".join(f"{x} => 1" for x in p1) + ">>>", "<<<" + ", ".join(f"{x} => 1" for x in p2) + ">>>"
+                src = (f"def a = {a_}; def b = {b_}; def ma = {ma}; def mb = {mb}; def k_ = <<<>>>; k_[a] = 'v'; def k2_ = <<<>>>; k2_[ma] = 'w'; "
+                       f"[a == b, a in <<b>>, length(<<a, b>>), k_[b, 'none'], a in [b], ma == mb, ma in <<mb>>, length(<<ma, mb>>), k2_[mb, 'none'], <<a>> == <<b>>]")
+                want = "[TRUE, TRUE, 1, 'v', TRUE, TRUE, TRUE, 1, 'w', TRUE]"
+                try:
+                    with core.time_limit(5):
+                        it.environment.map.clear()
+                        got = str(it.interpret(src, "c06"))
+                except (Exception, core.Timeout) as e:   # noqa
+                    got = "EXC " + type(e).__name__ + ": " + str(e)[:80]
+                progs += 1
+                ctx.count("construction_order_equal_collections")
+                if got != want:
+                    ctx.violation("oracle", f"`{src}` gives {got}, expected {want}", {"op": "program", "src": src, "a": "(null)", "b": "(null)"})
     # ---- a value that was used as a probe (hashed, compared) and is then CHANGED in place answers like its new value from then on:
     # membership, map lookup, ==, find — against fresh literals of the old and of the new value (the stored elements are never touched)
     hist = [("[1, 2]", "p_[0] = 5", "[5, 2]"), ("[1, 2]", "p_[1] += 1", "[1, 3]"), ("[1, 2]", "append(p_, 3)", "[1, 2, 3]"), ("[1, 2]", "delete_at(p_, 0)", "[2]"),
